@@ -1039,7 +1039,9 @@ namespace
 					if (extTypeInfo.ExtTypeCode == '\xFF') {
 						extTypeInfo.ValueType = ValueType::Timestamp;
 					}
-					binaryStreamReader.SetPosition(prevPos);
+					if (!binaryStreamReader.SetPosition(prevPos)) {
+						throw SerializationException(SerializationErrorCode::InputOutputError, "Unable to set position in the input stream");
+					}
 					return true;
 				}
 				throw ParsingException("Unexpected end of input archive", 0, binaryStreamReader.GetPosition());
@@ -1057,7 +1059,9 @@ namespace
 					if (extTypeInfo.ExtTypeCode == '\xFF') {
 						extTypeInfo.ValueType = ValueType::Timestamp;
 					}
-					binaryStreamReader.SetPosition(prevPos);
+					if (!binaryStreamReader.SetPosition(prevPos)) {
+						throw SerializationException(SerializationErrorCode::InputOutputError, "Unable to set position in the input stream");
+					}
 					return true;
 				}
 				throw ParsingException("Unexpected end of input archive", 0, binaryStreamReader.GetPosition());
@@ -1275,7 +1279,9 @@ namespace BitSerializer::MsgPack::Detail
 		ExtTypeInfo extTypeInfo;
 		if (ReadExtFamilyType(mBinaryStreamReader, extTypeInfo) && extTypeInfo.ExtTypeCode == '\xFF')
 		{
-			mBinaryStreamReader.SetPosition(mBinaryStreamReader.GetPosition() + extTypeInfo.DataOffset);
+			if (!mBinaryStreamReader.SetPosition(mBinaryStreamReader.GetPosition() + extTypeInfo.DataOffset)) {
+				throw ParsingException("Unexpected end of input archive", 0, mBinaryStreamReader.GetPosition());
+			}
 			if (extTypeInfo.Size == 4)
 			{
 				uint32_t data32;
